@@ -245,7 +245,6 @@ static void drive_other(int thorough) {
 int cmd_c03(int argc, char **argv) {
   int part = argc > 0 ? atoi(argv[0]) : 0, nparts = argc > 1 ? atoi(argv[1]) : 1, thorough = argc > 2 && strcmp(argv[2], "thorough") == 0;
   int only_kissel = argc > 3 && strcmp(argv[3], "kissel") == 0;   /* data configuration B: the entry points fed by the Kissel tables */
-  if (!freopen("/dev/null", "w", stderr)) return 2;      /* overwrite / deprecation diagnostics are counted, not read */
   build_lists(thorough);
   int idx = 0;
   for (ApiFn *f = API_TABLE; f->name; f++) {
